@@ -152,6 +152,10 @@ void genRoundTrip(Prng& r, Plan& p, int tier)
 		p.p["knob.xdl.read_chunk"] = r.below(3) == 0 ? 1 + r.below(64) : chunks[r.below(sizeof chunks / sizeof chunks[0])];
 	p.p["fault"] = r.below(8) == 0 ? 1 + r.below(3) : 0;
 	p.p["fault_k"] = r.below(400);
+	// the encoder hands its buffer to the sink whenever it exceeds this many bytes (16000 in the shipped build)
+	static const int flushes[] = {0, 1, 2, 3, 7, 16, 40, 100, 255, 1000, 4096};
+	if (r.below(3) != 0)
+		p.p["knob.xdl.write_flush"] = flushes[r.below(sizeof flushes / sizeof flushes[0])];
 }
 
 void runRoundTrip(const Plan& p)
@@ -238,6 +242,26 @@ void runRoundTrip(const Plan& p)
 	{
 		sim::fail("roundtrip_mismatch", "write_failed", "write() returned false without any fault");
 		return;
+	}
+	const size_t flushAt = (size_t)p.get("knob.xdl.write_flush", 16000);
+	if (disk.size() > flushAt)
+		sim::probe("file_written_in_several_flushes"); // the encoder hands its buffer to the file sink every 16000 bytes (knob in the verification build)
+	if (!xdl && utf8)
+	{
+		// the text that went to the file is the encoder's output too (it leaves the encoder in 16000-byte flushes):
+		// it must be accepted by the strict parser and denote the same value
+		ref::JV parsed;
+		ref::JParser jp(disk);
+		jp.rejectNulEscape = false;
+		if (!jp.document(parsed))
+			sim::fail("encoder_output", disk.size() > flushAt ? "file;rejected_by_strict_parser;several_flushes" : "file;rejected_by_strict_parser",
+			          "the %zu-byte file written by Json::write is not accepted by the strict RFC 8259 parser (stopped at offset %zu)", disk.size(), jp.p);
+		else
+		{
+			std::string e2 = cmp(build(parsed), tree, "$");
+			if (!e2.empty() && !hasFloat(tree))
+				sim::fail("encoder_output", "file;denotes_other_value", "the file written by Json::write denotes a different value for the independent parser: %s", e2.c_str());
+		}
 	}
 	std::string e = back.ok() ? cmp(back, tree, "$") : std::string("$: read() returned an invalid Var");
 	if (!e.empty())
